@@ -353,7 +353,7 @@ class PFlow(BaseRoutine):
         v0 = system.dae.xy
 
         try:
-            ret = newton_krylov(self._fg_wrapper, v0, verbose=verbose)
+            ret = newton_krylov(self._fg_wrapper, v0, verbose=verbose, f_tol=self.config.tol)
             self._set_xy(ret)
             self.converged = True
 
